@@ -272,7 +272,16 @@ def custom_types_obligation():
         warnings = [e for e in it.events if e[0] == "log"]
         if warnings:
             raise ObFail("%d supported lines were reported as unsupported" % len(warnings))
-        return dict(custom_types=3, edges=len(es))
+        # custom and built-in edge lines interleaved: one edge list, in file order
+        odo = lambda k: make_line(it, "EDGE_SE2", [ida, idb] + [Poly.var("u%d_%d" % (k, i)) for i in range(9)], " ", "\n")
+        lines2 = lines[:2] + ["CUSTOM_B 1 2\n", odo(0), "CUSTOM_A 3 4\n", odo(1), "CUSTOM_B 5 6\n"]
+        it.vfs["d.g2o"] = VFile("d.g2o", lines2)
+        g2 = it.call_classmethod(ClassRef("Graph"), "from_g2o", ["d.g2o"], dict(custom_edge_types=types[:2]))
+        kinds = [ga(e, "custom_tag", None) if isinstance(e, Obj) and "custom_tag" in e.fields else it.type_of(e, None).name for e in gp(g2, "_edges")]
+        want2 = ["CUSTOM_B", "EdgeOdometry", "CUSTOM_A", "EdgeOdometry", "CUSTOM_B"]
+        if kinds != want2:
+            raise ObFail("custom and built-in edge lines interleaved in the file %s come out as %s (one edge per line, in file order)" % (want2, kinds))
+        return dict(custom_types=3, edges=len(es) + len(kinds))
     return lambda pkg: run_obligation(pkg, fn, hook=distinct_names_hook)
 
 
